@@ -31,7 +31,7 @@ def zero_value(t):
     if t[0] == "ptr": return ("p", None)
     if t[0] == "slice": return ("l", None)
     if t[0] == "map": return ("m", None)
-    if t[0] == "func": return ("fn", False, False)
+    if t[0] == "func": return ("fn", True, False)
     raise ValueError(t)
 
 
@@ -218,12 +218,8 @@ def scenario_coq(sc, oracle):
         cs(c["nsdelim"]), cs(c["envdelim"]), hk, cb(c["cmdhandler"]), cs(c.get("usage", b"")),
         cl(["(%s, %s)" % (cs(k), cs(v)) for k, v in c.get("env", [])]), c.get("cols", 80))
     inits, unders = [], []
-    for fl in all_field_lists(sc):
-        lv, un = leaves_in_order(fl)
-        for fid, t, exported in lv:
-            v = sc["init"].get(fid) if exported else None
-            inits.append("(%s, %s)" % (cnat(fid), value_coq(v if v is not None else zero_value(t))))
-        unders += un
+    ii, unders = inits_and_unders(sc)
+    inits = ["(%s, %s)" % (cnat(fid), value_coq(v)) for fid, v in ii]
     orc = "{| or_float := %s; or_dur := %s; or_durfmt := %s |}" % (
         cl(["(%d, %s, %s)" % (b, cs(t), ("inl (%s)" if ok else "inr (%s)") % cs(r)) for (b, t), (ok, r) in sorted(oracle.get("float", {}).items())]),
         cl(["(%s, %s)" % (cs(t), ("inl (%d)%%Z" % r) if ok else "inr (%s)" % cs(r)) for t, (ok, r) in sorted(oracle.get("dur", {}).items())]),
@@ -287,3 +283,111 @@ def decode_list(s):
     inner = s[1:-1]
     if inner == "": return []
     return [unhex(x) for x in inner.split(",")]
+
+
+# ---------------------------------------------------------------- packed serialisation (Model/Decode.v)
+def s_nat(n): return b"%d;" % n
+def s_Z(z): return b"%d;" % z
+def s_bool(b): return b"1" if b else b"0"
+def s_str(b): return b"%d;" % len(b) + b
+def s_list(items): return b"%d;" % len(items) + b"".join(items)
+def s_opt(x): return b"0" if x is None else b"1" + x
+
+IK_CODE = {"int": b"a", "int8": b"b", "int16": b"c", "int32": b"d", "int64": b"e", "uint": b"f", "uint8": b"g", "uint16": b"h", "uint32": b"i", "uint64": b"j"}
+
+
+def s_kind(k):
+    if k in IK_CODE: return b"i" + IK_CODE[k]
+    return {"bool": b"b", "float32": b"f32;", "float64": b"f64;", "string": b"s", "duration": b"d", "custom": b"c", "comp": b"C"}[k]
+
+
+def s_type(t):
+    if t[0] == "k": return b"k" + s_kind(t[1])
+    if t[0] == "ptr": return b"p" + s_kind(t[1])
+    if t[0] == "slice": return b"l" + s_type(t[1])
+    if t[0] == "map": return b"m" + s_kind(t[1]) + s_kind(t[2])
+    if t[0] == "func": return b"F" + s_opt(None if t[1] is None else s_kind(t[1])) + s_bool(t[2])
+    raise ValueError(t)
+
+
+def s_value(v):
+    k = v[0]
+    if k == "b": return b"b" + s_bool(v[1])
+    if k == "i": return b"i" + s_Z(v[1])
+    if k == "s": return b"s" + s_str(v[1])
+    if k == "f": return b"f" + s_str(v[1])
+    if k == "p": return b"p" + s_opt(None if v[1] is None else s_value(v[1]))
+    if k == "l": return b"l" + s_bool(v[1] is None) + s_list([s_value(x) for x in (v[1] or [])])
+    if k == "m": return b"m" + s_bool(v[1] is None) + s_list([s_value(a) + s_value(b) for a, b in (v[1] or [])])
+    if k == "fn": return b"F" + s_bool(v[1]) + s_bool(v[2])
+    raise ValueError(v)
+
+
+def s_field(f):
+    if "struct" in f:
+        s = f["struct"]
+        return (b"S" + s_str(f["name"]) + s_bool(f["exported"]) + s_str(f["tag"]) + s_bool(s["ptr"]) + s_bool(s["nil"])
+                + s_list([s_field(x) for x in s["fields"]]) + s_nat(s["sid"]))
+    return b"L" + s_str(f["name"]) + s_bool(f["exported"]) + s_str(f["tag"]) + s_type(f["type"]) + s_nat(f["fid"])
+
+
+def s_fields(fs): return s_list([s_field(f) for f in fs])
+def s_path(p): return s_list([s_nat(i) for i in p])
+
+
+def s_attach(a):
+    if a["kind"] == "group":
+        return (b"G" + s_path(a["path"]) + s_str(a.get("short", b"")) + s_str(a.get("long", b"")) + s_fields(a["fields"])
+                + s_str(a.get("ns", b"")) + s_str(a.get("envns", b"")) + s_bool(a.get("hidden", False)))
+    ex = a.get("exec")
+    exs = b"n" if ex is None else (b"o" if ex is True else b"e" + s_str(ex))
+    return (b"C" + s_path(a["path"]) + s_str(a["name"]) + s_str(a.get("short", b"")) + s_str(a.get("long", b"")) + s_fields(a["fields"])
+            + exs + s_opt(None if a.get("usage") is None else s_str(a["usage"])) + s_list([s_str(x) for x in a.get("aliases", [])])
+            + s_bool(a.get("hidden", False)) + s_bool(a.get("subopt", False)))
+
+
+def s_op(o):
+    if o["op"] == "parse":
+        return b"P" + s_list([s_str(x) for x in o["args"]])
+    raise ValueError(o)
+
+
+def s_cfg(c):
+    o = c["opts"]
+    hk = {"none": b"n", "identity": b"i", "dropnext": b"d", "error": b"e"}[c["handler"]]
+    return (s_str(c["name"]) + s_bool(o["help"]) + s_bool(o["passdd"]) + s_bool(o["ignore"]) + s_bool(o["print"]) + s_bool(o["passafter"])
+            + s_str(c["nsdelim"]) + s_str(c["envdelim"]) + hk + s_bool(c["cmdhandler"]) + s_str(c.get("usage", b""))
+            + s_list([s_str(k) + s_str(v) for k, v in c.get("env", [])]) + s_nat(c.get("cols", 80)))
+
+
+def s_oracle(oracle):
+    fl = [s_nat(b) + s_str(t) + ((b"1" + s_str(r)) if ok else (b"0" + s_str(r))) for (b, t), (ok, r) in sorted(oracle.get("float", {}).items())]
+    du = [s_str(t) + ((b"1" + s_Z(r)) if ok else (b"0" + s_str(r))) for t, (ok, r) in sorted(oracle.get("dur", {}).items())]
+    df = [s_Z(z) + s_str(t) for z, t in sorted(oracle.get("durfmt", {}).items())]
+    return s_list(fl) + s_list(du) + s_list(df)
+
+
+def inits_and_unders(sc):
+    inits, unders = [], []
+    for fl in all_field_lists(sc):
+        lv, un = leaves_in_order(fl)
+        under_fids = {f for f, _ in un}
+        for fid, t, exported in lv:
+            v = sc["init"].get(fid) if (exported and fid not in under_fids) else None
+            inits.append((fid, v if v is not None else zero_value(t)))
+        unders += un
+    return inits, unders
+
+
+def scenario_bytes(sc, oracle):
+    c = sc["cfg"]
+    inits, unders = inits_and_unders(sc)
+    return (s_cfg(c) + s_bool(c.get("subopt", False)) + s_opt(None if sc["data"] is None else s_fields(sc["data"]))
+            + s_list([s_attach(a) for a in sc["attach"]]) + s_list([s_nat(f) + s_value(v) for f, v in inits])
+            + s_list([s_nat(f) + s_nat(s) for f, s in unders]) + s_oracle(oracle) + s_list([s_op(o) for o in sc["ops"]]))
+
+
+def pack_coq(b):
+    """(len, [7-byte big-endian words]) as a Coq term of type nat * list int"""
+    words = [str(int.from_bytes(b[i:i + 7], "big")) for i in range(0, len(b), 7)]
+    return "(%d%%nat, [%s]%%uint63)" % (len(b), "; ".join(words))
